@@ -21,6 +21,11 @@ EXTRA = [1e-8, 3e-9, 9.999999e-7, 1e-6, 1.0000001e-6, 1e-5, 1e-16, 2.22507385850
          6.02214076e23, 1e22, 1e23, 0.1, 2.0 ** -1074, 2.0 ** 53, 2.0 ** 53 + 2]
 
 
+# tables whose rows and/or columns hold mixed-sign values that cancel exactly (a zero total is not an empty vector)
+CANCEL = [([2, 3], [-2.5, 0.0, 2.5, 1.0, -0.25, -0.75]), ([3, 2], [1e300, -1e300, 2.0, -2.0, 0.0, 5.0]),
+          ([2, 2], [1.0, -1.0, -1.0, 1.0]), ([1, 2], [3.0, -3.0]), ([2, 1], [-7.0, 7.0])]
+
+
 def all_values():
     vals = []
     for v in HARD + EXTRA:
@@ -89,7 +94,7 @@ def ids_for(style, axis, n):
 
 # ------------------------------------------------------------------------- metadata
 MD_KINDS = ['none', 'text', 'textodd', 'int', 'float', 'bool', 'taxonomy', 'taxonomy_ragged',
-            'collapsed_ids', 'slashkey', 'two']
+            'collapsed_ids', 'slashkey', 'two', 'taxonomy_nonascii', 'mixednum']
 
 
 def md_for(kind, axis, n):
@@ -112,6 +117,13 @@ def md_for(kind, axis, n):
             d = {'taxonomy': ['k__A', 'p__B%d' % i, 's__C']}
         elif kind == 'taxonomy_ragged':
             d = {'taxonomy': ['k__A', 'p__B', 'c__C', 'o__D'][:1 + (i % 3)]}
+        elif kind == 'taxonomy_nonascii':
+            # non-ASCII levels whose UTF-8 encoding is longer than their character count
+            d = {'taxonomy': [['k__Bactéries', 'p__Protéobactéries'], ['k__細菌', 'p__プロテオバクテリア門', 's__x'],
+                              ['k__A', 'p__ß']][i % 3]}
+        elif kind == 'mixednum':
+            # a numeric category whose first value has the narrowest type
+            d = {'score': [7, 6.5, 8.25, -0.75][i % 4], 'flag': [True, 3, 0, 2.5][i % 4]}
         elif kind == 'taxonomy_gap':     # a hierarchical list with an empty level (not in MD_KINDS: C01 excludes it)
             d = {'taxonomy': [['k__A', '', 's__C%d' % i], ['k__A', '', '', 'g__G'], ['k__B', 'p__X', '', 's__%d' % i]][i % 3]}
         elif kind == 'collapsed_ids':
